@@ -25,8 +25,13 @@ REPLAY = '''
 sys.path.insert(0, '/verif')
 import warnings; warnings.filterwarnings('ignore')
 from checks.c16 import concrete_run
-msg = concrete_run(%(name)r, %(inputs)r)
-if msg: reproduced(msg)
+# the order in which the pass lays out the nets follows set iteration over freshly allocated objects: a counterexample can
+# depend on it, so the same inputs are dumped several times from fresh constructions (different addresses, different orders)
+junk = []
+for attempt in range(12):
+  msg = concrete_run(%(name)r, %(inputs)r)
+  if msg: reproduced(msg)
+  junk.append([object() for _ in range(37 * (attempt + 1))])
 '''
 
 
